@@ -146,6 +146,7 @@ def handleE (j : Json) : Except String Json := do
       ("label", Json.str (String.ofList (PV.Modules.mangle key)))])])
   | "core-compare" => do pure (Json.mkObj [("ok", ← PV.DriverRun.coreCompare j)])
   | "strip-compare" => do pure (Json.mkObj [("ok", ← PV.DriverRun.stripCompare j)])
+  | "strip-run" => do pure (Json.mkObj [("ok", ← PV.DriverRun.stripRun j)])
   | "check-leaf" => do pure (Json.mkObj [("ok", ← PV.DriverRun.checkLeafCmd j)])
   | "check-fall" => do pure (Json.mkObj [("ok", ← PV.DriverRun.checkFallCmd j)])
   | "run-regions" => do pure (Json.mkObj [("ok", ← PV.DriverRun.runRegions j)])
